@@ -187,11 +187,7 @@ func mkPacket(h *harness, p pkt, isn uint32) (gopacket.Flow, *layers.TCP, int, i
 	k := [2]int{p.C, p.D}
 	lo := h.next[k]
 	if p.OOO {
-		lo += 3 // leave a hole; the next in-order packet fills it
-		h.hole[k] = true
-	} else if h.hole[k] {
-		h.hole[k] = false
-		h.next[k] = lo + 6
+		lo += 6 // beyond a hole of two packets: the next in-order packet fills only half of it, so this one stays queued
 	} else {
 		h.next[k] = lo + 3
 	}
